@@ -81,7 +81,7 @@ func init() {
 func c01RoundTrip(c *fw.Case, t *pdus.Type, force, class int) {
 	v, classes := pdus.Gen(t, c.R, force, class)
 	p := pdus.Build(t, v)
-	b, err, psig, pd := encode(p)
+	b, err, psig, pd := encode(c, p)
 	ctx := func() string { return pdus.Describe(t, v) }
 	if psig != "" {
 		c.Failf("encode-"+psig+"/"+t.Key(), "%s\n%s", ctx(), pd)
@@ -100,7 +100,7 @@ func c01RoundTrip(c *fw.Case, t *pdus.Type, force, class int) {
 	}
 	img := append([]byte(nil), b...)
 	q := t.New()
-	derr, psig, pd := decode(q, b)
+	derr, psig, pd := decode(c, q, b)
 	if psig != "" {
 		c.Failf("decode-"+psig+"/"+t.Key(), "%s\nimage=%s\n%s", ctx(), hx(img), pd)
 		return
@@ -118,7 +118,7 @@ func c01RoundTrip(c *fw.Case, t *pdus.Type, force, class int) {
 	got := pdus.Extract(t, q)
 	if d := pdus.Diff(t, post, got); len(d) > 0 {
 		for _, one := range d {
-			c.Failf("roundtrip-mismatch/"+t.Key()+"/"+firstField([]string{one}), "decoded PDU differs from the original: %s\n%s\nimage=%s", one, ctx(), hx(img))
+			c.Failf("roundtrip-mismatch/"+t.Key()+"/"+firstField([]string{one})+mismatchKind(t, post, got, firstField([]string{one})), "decoded PDU differs from the original: %s\n%s\nimage=%s", one, ctx(), hx(img))
 		}
 	}
 	if len(t.Fields) == 0 {
@@ -189,7 +189,7 @@ func c01Oversize(c *fw.Case, oc oversizeCase) {
 			v.F[f.Spec] = big
 		}
 		p := pdus.Build(t, v)
-		b, err, psig, pd := encode(p)
+		b, err, psig, pd := encode(c, p)
 		c.Evals(1)
 		if psig != "" {
 			c.Failf("oversize-"+psig+"/"+t.Key()+"/"+f.Spec, "%s\n%s", pdus.Describe(t, v), pd)
@@ -247,4 +247,18 @@ func c01StatusReport(c *fw.Case) {
 	for i, cl := range classes {
 		c.Cover("statusreport/" + fields[i].Spec + "/" + cl)
 	}
+}
+
+// mismatchKind refines a mismatch signature for binary fields: "/trailing-nul-trimmed" when the
+// only difference is that trailing 0x00 octets of the original are missing after decoding.
+func mismatchKind(t *pdus.Type, orig, got *pdus.Values, spec string) string {
+	f := t.Field(spec)
+	if f == nil || f.Kind != "bin" {
+		return ""
+	}
+	a, b := orig.B(spec), got.B(spec)
+	if len(a) > 0 && a[len(a)-1] == 0 && bytes.Equal(bytes.TrimRight(a, "\x00"), b) {
+		return "/trailing-nul-trimmed"
+	}
+	return ""
 }
